@@ -528,7 +528,9 @@ class StmtMixin:
                 g = self.make_global(gname, spec, st)
                 st.conds.append(z3.And(g.t >= 1, g.t <= st.top))
         st.entry = st
-        for req in self.c.get("requires", []):
+        # `axioms`: assumed lemmas (trusted, audited by a bounded stand-in) — assumed here, never checked at call sites,
+        # and listed among the unchecked assumptions of the evidence
+        for req in list(self.c.get("axioms", [])) + list(self.c.get("requires", [])):
             g = self.eval_spec(req, st, st)
             st = st.assume(self.truthy(g))
             st.entry = st
